@@ -370,7 +370,8 @@ func VerifStep() {
 		proc = verifrt.Choose("proc", pSETATTR, pWRITE, pREAD, pGETATTR, pCOMMIT, pCREATE, pMKDIR, pSYMLINK, pREMOVE, pRMDIR, pLOOKUP, pRENAME, pREADDIR, pRDPLUS, pREADLNK)
 	}
 	involved := []uint64{39, 71, vChildOf(1), vChildOf(2), 1}
-	p04 := verifrt.Param("p04", 0) == 1
+	p05 := verifrt.Param("p05", 0) == 1
+	p04 := verifrt.Param("p04", 0) == 1 || p05
 	c04 := &v04{}
 	var newh nfstypes.Post_op_fh3
 	var name, name2 nfstypes.Filename3
@@ -535,6 +536,9 @@ func VerifStep() {
 		if ok {
 			w.names04(c04, proc, dx1, dx2, name, name2, newh)
 		}
+	}
+	if p05 {
+		w.allocAgreeAt(c04)
 	}
 	if verifrt.Param("p06", 0) == 1 {
 		verifrt.AssertK(m.ascending, "mon:locks-acquired-in-ascending-order", "KF-apply-lock-order", proc == pRDPLUS)
